@@ -33,6 +33,7 @@ struct Outcome {
     inconclusive: Vec<String>,
     counters: BTreeMap<String, u64>,
     sample: Option<Value>,
+    extra_samples: Vec<Value>,
 }
 
 impl Outcome {
@@ -459,6 +460,11 @@ async fn history(node: &Node, reader: &SqliteStore, seed: u64, case: u64) -> Out
     if had_backwards && had_foreign {
         out.nontrivial = Some(vh_common::hash_of(&format!("{actions_log:?}{plan_log:?}")));
     }
+    // --- sequential multi-subscription phase (judged) ----------------------------------------
+    // Several subscriptions opened one after another on one (fresh) topic; acks strictly one at a
+    // time through old and new handles, cursor rows read back after every call.
+    multi_subscription_phase(node, reader, seed, case, &mut rng, &topics, &mut out).await;
+
     // --- observation only: two independent streams on one topic ------------------------------
     // Each `node.stream(topic)` has its own ack semaphore, so acks through two streams of the same
     // topic can interleave their read-modify-write of the shared cursor row. That is outside the
@@ -476,6 +482,215 @@ async fn history(node: &Node, reader: &SqliteStore, seed: u64, case: u64) -> Out
                                  "final_heights": after.iter().map(|r| r.heights.iter().map(|((a, _), s)| json!([a.to_string()[..8].to_string(), s])).collect::<Vec<_>>()).collect::<Vec<_>>()}));
     }
     out
+}
+
+/// One subscription (possibly already dropped) of the multi-subscription phase, with the
+/// operations it delivered: their `ProcessedOperation::ack` goes through *this* stream's ack state.
+struct Handle {
+    label: String,
+    tx: Option<p2panda::streams::StreamPublisher<String>>,
+    rx: Option<StreamSubscription<String>>,
+    delivered: Vec<ProcessedOperation<String>>,
+}
+
+/// Open a stream on `topic`, publish `messages` through it, import `imports`, and drain its
+/// subscription until every one of those operations was delivered (replayed operations that come
+/// first are collected as well: a later-published operation is processed after the replay).
+async fn open_handle(node: &Node, topic: Topic, label: String, messages: Vec<String>, imports: Vec<Vec<Operation>>) -> Result<Handle, String> {
+    let (tx, mut rx) = node.stream::<String>(topic).await.map_err(|e| format!("node.stream failed: {e}"))?;
+    let mut wanted: Vec<Hash> = Vec::new();
+    for m in messages {
+        let fut = tx.publish(m).await.map_err(|e| format!("publish failed: {e}"))?;
+        wanted.push(fut.hash());
+    }
+    for ops in imports {
+        wanted.extend(ops.iter().map(|o| o.hash));
+        let fut = tx.import(futures::stream::iter(ops)).await.map_err(|e| format!("import failed: {e}"))?;
+        let _ = tokio::time::timeout(WATCHDOG, fut).await;
+    }
+    let mut delivered: Vec<ProcessedOperation<String>> = Vec::new();
+    let drain = async {
+        while !wanted.iter().all(|h| delivered.iter().any(|p| p.id() == *h)) {
+            match rx.next().await {
+                Some(StreamEvent::Processed { operation, .. }) => delivered.push(operation),
+                Some(StreamEvent::ProcessingFailed { error, .. }) => return Err(format!("processing failed: {error}")),
+                Some(StreamEvent::ReplayFailed { error }) => return Err(format!("replay failed: {error}")),
+                Some(_) => {}
+                None => return Err("subscription ended".to_string()),
+            }
+        }
+        Ok(())
+    };
+    match tokio::time::timeout(WATCHDOG, drain).await {
+        Ok(Ok(())) => {}
+        Ok(Err(e)) => return Err(format!("multi-subscription set-up: {e}")),
+        Err(_) => return Err("watchdog: multi-subscription set-up did not deliver its operations within 60 s".into()),
+    }
+    Ok(Handle { label, tx: Some(tx), rx: Some(rx), delivered })
+}
+
+async fn multi_subscription_phase(node: &Node, reader: &SqliteStore, seed: u64, case: u64, rng: &mut Rng, other_topics: &[Topic], out: &mut Outcome) {
+    let topic = make_topic(seed, case, 200);
+    let foreign = SigningKey::from_bytes(&rng.array32());
+    let n_local = 3 + rng.usize_below(3);
+    let n_foreign = 2 + rng.below(2) as u32;
+    let first = open_handle(
+        node,
+        topic,
+        "S1".into(),
+        (0..n_local).map(|k| format!("multi-{k}")).collect(),
+        vec![foreign_ops(&foreign, topic, n_foreign, "multi-foreign")],
+    )
+    .await;
+    let mut handles: Vec<Handle> = match first {
+        Ok(h) => vec![h],
+        Err(e) => {
+            out.inconclusive.push(e);
+            return;
+        }
+    };
+    // Everything acknowledgeable on this topic: id -> (author, log, seq).
+    let mut universe: Vec<(Hash, VerifyingKey, LogId, u32)> = Vec::new();
+    let learn = |universe: &mut Vec<(Hash, VerifyingKey, LogId, u32)>, h: &Handle| {
+        for p in &h.delivered {
+            let hd = p.processed().header();
+            if !universe.iter().any(|u| u.0 == p.id()) {
+                universe.push((p.id(), hd.verifying_key, hd.extensions.log_id(), hd.seq_num));
+            }
+        }
+    };
+    learn(&mut universe, &handles[0]);
+
+    let read_rows = |reader: &SqliteStore| {
+        let reader = reader.clone();
+        let topics: Vec<Topic> = std::iter::once(topic).chain(other_topics.iter().copied()).collect();
+        async move {
+            let mut rows = Vec::new();
+            for t in &topics {
+                rows.push(read_row(&reader, *t).await?);
+            }
+            Ok::<Vec<Row>, String>(rows)
+        }
+    };
+    let mut rows = match read_rows(reader).await {
+        Ok(r) => r,
+        Err(e) => {
+            out.inconclusive.push(e);
+            return;
+        }
+    };
+    let mut log: Vec<Value> = Vec::new();
+    let mut accepted_max: HashMap<(VerifyingKey, LogId), u32> = HashMap::new();
+    let mut last_ack_handle: Option<usize> = None;
+    let mut handle_switches = 0u64;
+    let mut opened = 1usize;
+    let n_steps = 16 + rng.usize_below(8);
+    for step in 0..n_steps {
+        let open_now = handles.iter().filter(|h| h.rx.is_some()).count();
+        let r = rng.below(100);
+        // Step 0 acks through S1, step 1 opens S2 — so that an old handle with history exists.
+        let action = if step == 0 { 2 } else if step == 1 || (r < 12 && opened < 4) { 0 } else if r < 18 && open_now > 1 { 1 } else { 2 };
+        let mut acked: Option<(Hash, VerifyingKey, LogId, u32, Result<(), String>, usize)> = None;
+        match action {
+            0 => {
+                opened += 1;
+                let label = format!("S{opened}");
+                match open_handle(node, topic, label.clone(), vec![format!("marker-{opened}")], vec![]).await {
+                    Ok(h) => {
+                        learn(&mut universe, &h);
+                        log.push(json!({"step": step, "open": label, "replayed_and_marker": h.delivered.len()}));
+                        handles.push(h);
+                    }
+                    Err(e) => {
+                        out.inconclusive.push(e);
+                        return;
+                    }
+                }
+            }
+            1 => {
+                let open_ix: Vec<usize> = handles.iter().enumerate().filter(|(_, h)| h.rx.is_some()).map(|(i, _)| i).collect();
+                let hi = *rng.pick(&open_ix);
+                handles[hi].rx = None;
+                handles[hi].tx = None;
+                log.push(json!({"step": step, "drop": handles[hi].label}));
+            }
+            _ => {
+                let hi = rng.usize_below(handles.len());
+                let h = &handles[hi];
+                let by_id = h.rx.is_some() && (h.delivered.is_empty() || rng.bool());
+                let (id, via, res) = if by_id {
+                    let u = *rng.pick(&universe);
+                    (u.0, "StreamSubscription::ack", h.rx.as_ref().unwrap().ack(u.0).await.map_err(|e| e.to_string()))
+                } else if !h.delivered.is_empty() {
+                    let p = rng.pick(&h.delivered);
+                    (p.id(), "ProcessedOperation::ack", p.ack().await.map_err(|e| e.to_string()))
+                } else {
+                    continue;
+                };
+                let u = *universe.iter().find(|u| u.0 == id).expect("known operation");
+                log.push(json!({"step": step, "ack_via": format!("{} {via}{}", h.label, if h.rx.is_none() { " (subscription dropped)" } else { "" }), "author": u.1.to_string()[..8].to_string(), "seq": u.3, "result": res.as_ref().err()}));
+                if last_ack_handle.is_some_and(|l| l != hi) {
+                    handle_switches += 1;
+                }
+                last_ack_handle = Some(hi);
+                acked = Some((u.0, u.1, u.2, u.3, res, hi));
+            }
+        }
+        let after = match read_rows(reader).await {
+            Ok(r) => r,
+            Err(e) => {
+                out.inconclusive.push(e);
+                return;
+            }
+        };
+        let witness = |log: &Vec<Value>, rows: &Vec<Row>, after: &Vec<Row>| {
+            json!({"seed": seed, "case": case, "phase": "sequential multi-subscription (one topic, several streams opened one after another)", "actions": log,
+                   "cursor_row_before": rows[0].raw.as_ref().map(|b| hex(b)), "cursor_row_after": after[0].raw.as_ref().map(|b| hex(b)),
+                   "heights_before": rows[0].heights.iter().map(|((a, _), s)| json!([a.to_string()[..8].to_string(), s])).collect::<Vec<_>>(),
+                   "heights_after": after[0].heights.iter().map(|((a, _), s)| json!([a.to_string()[..8].to_string(), s])).collect::<Vec<_>>()})
+        };
+        if let Some(what) = backwards(&rows[0].heights, &after[0].heights) {
+            out.violations.push((
+                "C07:persisted-cursor-moved-backwards".into(),
+                format!("multi-subscription history, step {step} ({}): the topic's persisted cursor went backwards: {what}", log.last().map(|l| l.to_string()).unwrap_or_default()),
+                witness(&log, &rows, &after),
+            ));
+        }
+        for ti in 1..rows.len() {
+            if rows[ti] != after[ti] {
+                out.violations.push(("C07:ack-changed-other-topic-cursor".into(), format!("multi-subscription history, step {step}: the cursor row of another topic changed"), witness(&log, &rows, &after)));
+            }
+        }
+        if let Some((_id, a, l, s, res, _hi)) = acked {
+            out.bump(&format!("multi_sub_acks:{}", if res.is_ok() { "ok" } else { "err" }), 1);
+            match res {
+                Ok(()) => {
+                    let e = accepted_max.entry((a, l)).or_insert(s);
+                    *e = (*e).max(s);
+                    if after[0].heights.get(&(a, l)).is_none_or(|h| *h < s) {
+                        out.violations.push(("C07:accepted-ack-not-reflected".into(), format!("multi-subscription history, step {step}: ack of seq {s} was accepted but the persisted cursor shows {:?}", after[0].heights.get(&(a, l))), witness(&log, &rows, &after)));
+                    }
+                }
+                Err(e) => out.bump(&format!("observed_not_judged:own-topic ack error ({e})"), 1),
+            }
+        }
+        rows = after;
+    }
+    // Everything ever accepted is still reflected at the end.
+    for ((a, l), s) in &accepted_max {
+        if rows[0].heights.get(&(*a, *l)).is_none_or(|h| h < s) {
+            out.violations.push(("C07:accepted-ack-not-reflected".into(), format!("multi-subscription history: acks up to seq {s} of author {a} were accepted but the final persisted cursor shows {:?}", rows[0].heights.get(&(*a, *l))), json!({"seed": seed, "case": case, "actions": log})));
+            break;
+        }
+    }
+    out.bump("multi_sub_streams_opened", opened as u64);
+    out.bump("multi_sub_handle_switches_between_acks", handle_switches);
+    if handle_switches > 0 {
+        out.bump("multi_sub_histories_with_old_and_new_handles_interleaved", 1);
+    }
+    if case < 1 {
+        out.extra_samples.push(json!({"case": case, "phase": "multi-subscription", "actions": log}));
+    }
 }
 
 /// Returns `Some(true)` when an accepted ack is missing from the cursor after acks raced through
@@ -591,7 +806,10 @@ pub fn run(args: &Args) {
          sequential acks in random order (own topic through StreamSubscription::ack and \
          ProcessedOperation::ack, foreign-topic ids, unknown ids) with all cursor rows read back \
          after each call, then 4 concurrent tasks x 3..7 acks through the same handles with a \
-         monitor task reading the rows. Non-trivial = the history contains an ack of a lower \
+         monitor task reading the rows; then, on a fresh topic, 2..4 subscriptions opened one after \
+         another (some dropped again) with 16..23 steps of acks strictly one at a time through old \
+         and new handles (StreamSubscription::ack by id, ProcessedOperation::ack of operations \
+         delivered earlier by any of the streams), rows read back after every call. Non-trivial = the history contains an ack of a lower \
          sequence number after a higher one was accepted for the same (author, log) and a \
          foreign-topic ack; distinct by the action list.",
         20,
@@ -625,6 +843,9 @@ pub fn run(args: &Args) {
         }
         for (k, v) in o.counters {
             rep.bump(&k, v);
+        }
+        for s in o.extra_samples {
+            rep.sample(s);
         }
         if let Some(s) = o.sample {
             rep.sample(s);
